@@ -10,6 +10,7 @@ from ..common import log
 
 # ---------------------------------------------------------------------------------------------
 # formula trees: ('i', n) ('f', n64) ('s', text) ('u', op, e) ('b', op, l, r) ('c', fn, [args])
+#                ('sq', tree): the same formula with its string constants spelled as character constants '...'
 
 M64 = (1 << 64) - 1
 INT_POOL = [0, 1, 2, 3, 4, 5, 7, 8, 9, 15, 16, 31, 32, 33, 63, 64, 65, 97, 127, 128, 255, 256, 65535, 65536,
@@ -25,12 +26,19 @@ INT_BIN = ["add", "sub", "mul", "div", "mod", "pow", "and", "or", "xor", "shl", 
            "eq", "eqeq", "ne", "lt", "le", "gt", "ge"]
 CMP = ["eq", "eqeq", "ne", "lt", "le", "gt", "ge"]
 INT_FN1 = ["bitcnt", "firstbit", "lastbit", "bitpos", "sgn", "abs", "toupper", "tolower"]
+# functions with a numeric parameter ("integer", "floating point", "integer or floating point" in the manual's table)
+NUM_FN1 = INT_FN1 + ["int", "sqrt"]
+FLT_BIN = ["add", "sub", "mul", "div", "pow"] + CMP          # column "float" = yes
+# characters of generated character constants / multi character constants (no quote, backslash, brace)
+MIX_CHARS = "ABCDEFGHIJKLMNOPQRSTUVWXYZabcdefghijklmnopqrstuvwxyz0123456789 +-*/=.:#<>!&|^~@$%?_"
 
 
 def ser(t):
     k = t[0]
     if k == "raw":      # corpus line, already serialised
         return t[1]
+    if k == "sq":
+        return "sq " + ser(t[1])
     if k == "i":
         return "i:%d" % t[1]
     if k == "f":
@@ -48,6 +56,8 @@ def ser(t):
 
 def parse_prefix(line):
     toks = line.split()
+    if toks and toks[0] == "sq":
+        return ("sq", parse_prefix(" ".join(toks[1:])))
 
     def go(i):
         t = toks[i]
@@ -80,6 +90,10 @@ def parse_prefix(line):
 
 
 def subtrees(t):
+    if t[0] == "sq":
+        for x in subtrees(t[1]):
+            yield ("sq", x)
+        return
     yield t
     if t[0] == "u":
         yield from subtrees(t[2])
@@ -92,6 +106,8 @@ def subtrees(t):
 
 
 def children(t):
+    if t[0] == "sq":
+        return [("sq", c) for c in children(t[1])]
     if t[0] == "u":
         return [t[2]]
     if t[0] == "b":
@@ -102,12 +118,15 @@ def children(t):
 
 
 def depth(t):
+    if t[0] == "sq":
+        return depth(t[1])
     return 1 + max([depth(c) for c in children(t)] or [0])
 
 
 class Gen:
     def __init__(self, rng):
         self.rng = rng
+        self.pairs = {}      # (operator class, left type, right type) -> number of generated operand pairs
 
     def int_lit(self):
         r = self.rng.random()
@@ -219,6 +238,109 @@ class Gen:
         return ("c", "lowstring", [self.gen_str(d - 1)])
 
 
+    # ---- mixed operand types: character constants / multi character constants, integers and floats under one
+    #      operator or as argument of a function that takes numbers (promotion string -> integer -> float)
+
+    def mix_str(self, bad=None):
+        rng = self.rng
+        r = rng.random()
+        if bad or (bad is None and r < 0.04):
+            # no integer value: empty, more than four characters
+            return ("s", rng.choice(["", "hello", "abcde", "Hello World", "xyz123"]))
+        n = 1 if r < 0.55 else rng.randrange(2, 5)
+        return ("s", "".join(rng.choice(MIX_CHARS) for _ in range(n)))
+
+    def mix_operand(self, ty, d):
+        """an operand whose value has type ty ('s' string, 'i' integer, 'f' float): a constant or a small subformula"""
+        rng = self.rng
+        if ty == "s":
+            if d > 0 and rng.random() < 0.2:
+                q = rng.random()
+                if q < 0.4:
+                    return ("b", "add", self.mix_str(False), ("s", rng.choice(MIX_CHARS)))
+                if q < 0.75:
+                    return ("c", "substr", [("s", rng.choice(["hello", "Hello World", "ABCD", "xyz123", "aB3 d"])), self.small(0, 3), self.small(1, 4)])
+                return ("c", rng.choice(["upstring", "lowstring"]), [self.mix_str()])
+            return self.mix_str()
+        if ty == "i":
+            r = rng.random()
+            if r < 0.5:
+                return self.small(0, 300)
+            if r < 0.85 or d <= 0:
+                return self.int_lit()
+            return self.gen_int(min(d - 1, 2))
+        r = rng.random()
+        if r < 0.7 or d <= 0:
+            return ("f", rng.choice(FLT_POOL) if rng.random() < 0.6 else rng.randrange(0, 2000))
+        if r < 0.85:
+            return ("u", "neg", ("f", rng.randrange(1, 2000)))
+        return self.gen_flt(min(d - 1, 2))
+
+    def mix_pair(self, op, tl, tr, d):
+        rng = self.rng
+        key = "%s %s,%s" % ("float-op" if op in FLT_BIN else "int-op", tl, tr)
+        self.pairs[key] = self.pairs.get(key, 0) + 1
+        l = self.mix_operand(tl, d)
+        rr = self.mix_operand(tr, d)
+        if op == "pow" and tr == "f":
+            rr = ("f", rng.choice([0, 32, 64, 96, 128, 160, 192, 256, 512]))      # keep the power inside the doubles
+        if op == "pow" and tr == "i":
+            rr = self.small(0, 8) if tl != "i" else self.small(0, 70)
+        if op == "pow" and tr == "s":
+            rr = ("s", rng.choice(MIX_CHARS))                                   # exponent = one character code (the SPEC's power is the defining recursion)
+        if op == "add" and (tl, tr) in (("s", "i"), ("i", "s")):
+            # string + integer (character arithmetic, not described by the manual): small summands keep every character printable
+            l, rr = (l, self.small(0, 9)) if tr == "i" else (self.small(0, 9), rr)
+        if op in ("shl", "shr") and tr == "i" and rng.random() < 0.8:
+            rr = self.small(0, 63)
+        if op == "mirror" and tr == "i" and rng.random() < 0.8:
+            rr = self.small(1, 32)
+        return ("b", op, l, rr)
+
+    def gen_mix(self, d):
+        rng = self.rng
+        r = rng.random()
+        if r < 0.55 or d <= 0:
+            op = rng.choice(INT_BIN if rng.random() < 0.5 else FLT_BIN)
+            tl, tr = rng.choice([("s", "f"), ("f", "s"), ("s", "f"), ("f", "s"), ("s", "i"), ("i", "s"), ("s", "s")])
+            return self.mix_pair(op, tl, tr, d - 1)
+        if r < 0.72:
+            q = rng.random()
+            ty = rng.choice("ssfi")
+            if q < 0.75:
+                return ("c", rng.choice(NUM_FN1 + ["exprtype"]), [self.mix_operand(ty, d - 1)])
+            if q < 0.85:
+                return ("c", "charfromstr", [self.str_lit(), self.mix_operand(ty, d - 1)])
+            if q < 0.93:
+                return ("c", "substr", [self.str_lit(), self.mix_operand(ty, d - 1), self.mix_operand(rng.choice("si"), 0)])
+            return ("c", rng.choice(["strlen", "upstring", "lowstring"]), [self.mix_operand(rng.choice("sif"), 0)])
+        if r < 0.8:
+            return ("u", rng.choice(["neg", "not", "lnot"]), self.mix_operand(rng.choice("ssf"), d - 1))
+        # the result of a mixed operation used further
+        op2 = rng.choice(["add", "sub", "mul", "div", "eq", "ne", "lt", "ge", "and", "or"])
+        inner = self.gen_mix(d - 1)
+        other = self.mix_operand(rng.choice("sif"), 0)
+        return ("b", op2, inner, other) if rng.random() < 0.6 else ("b", op2, other, inner)
+
+    def mix_sweep(self):
+        """every dyadic operator x every pair of operand types, every numeric function x every argument type"""
+        out = []
+        for op in INT_BIN:
+            for tl in "sif":
+                for tr in "sif":
+                    out.append(((op, tl, tr), self.mix_pair(op, tl, tr, 0)))
+        for fn in NUM_FN1 + ["exprtype"]:
+            for ty in "sif":
+                out.append(((fn, ty, ""), ("c", fn, [self.mix_operand(ty, 0)])))
+        for ty in "sf":
+            out.append((("charfromstr", ty, ""), ("c", "charfromstr", [self.str_lit(), self.mix_operand(ty, 0)])))
+            out.append((("substr", ty, ""), ("c", "substr", [self.str_lit(), self.mix_operand(ty, 0), self.small(0, 3)])))
+        for u in ("neg", "not", "lnot"):
+            for ty in "sf":
+                out.append(((u, ty, ""), ("u", u, self.mix_operand(ty, 0))))
+        return out
+
+
 # corpus of hand-written regression inputs (prefix notation), run first
 CORPUS = [
     "b:add i:1 b:mul i:2 i:3", "b:mul b:add i:1 i:2 i:3", "b:sub i:1 b:sub i:2 i:3", "b:sub b:sub i:1 i:2 i:3",
@@ -249,6 +371,18 @@ FINDING_PROBES = [
     ("bitpos-bit63", "c1:bitpos i:9223372036854775808"),
     ("charfromstr-position-truncated", "c2:charfromstr s:616263 i:4294967296"),
     ("int-float-2pow63", "c1:int b:mul f:274877906944 f:2147483648"),
+    # automatic type conversion: string arguments of numeric parameters, strings without integer value, type errors of arguments
+    ("function-string-argument-not-converted", "c1:toupper s:61"),
+    ("function-string-argument-not-converted", "sq c1:sqrt s:41"),
+    ("function-type-error-reported-as-internal-error", "c1:bitcnt f:96"),
+    ("string-operand-not-convertible", "b:mul s:68656c6c6f i:2"),
+    ("string-operand-not-convertible", "b:sub f:96 s:6162636465"),
+]
+# the seven demo formulas of the class "a string meets a float" and their single-step neighbours
+CORPUS_MIX = [
+    "sq b:mul s:41 f:96", "sq b:mul f:96 s:41", "sq b:div s:41 f:128", "sq b:add s:4142 f:32", "sq b:gt s:41 f:4128", "b:sub f:6432 s:64",
+    "b:pow f:128 s:03", "sq b:mul s:41 i:2", "b:mul i:65 f:96", "sq b:sub s:41 i:1", "b:eq s:41424344 f:70071144704", "sq b:and s:41 f:96",
+    "sq b:mod f:96 s:41", "u:neg s:41", "sq u:neg s:4142", "b:lt f:96 s:68656c6c6f", "c1:exprtype s:41", "sq c1:exprtype b:mul s:41 f:64",
 ]
 RAW_PROBES = [
     # (signature, text, documented value) - texts outside the rendered grammar
@@ -257,7 +391,9 @@ RAW_PROBES = [
 ]
 CALIB = [("potBase", "(-2.0)^3.0", "16"), ("firstbitSkip", "firstbit(1)", str(M64)),
          ("mirrorInt", "$80000001><32", str(0xFFFFFFFF80000001)), ("shrArith", "(-1)>>1", str(M64)),
-         ("singleBitArith", "bitpos($8000000000000000)", "error")]
+         ("singleBitArith", "bitpos($8000000000000000)", "error"),
+         # function branch: is a string argument of a numeric parameter converted? is a type error of an argument reported as "internal error"?
+         ("fnStrConv", 'toupper("a")', "65"), ("fnErrRaw", "bitcnt(1.5)", "internal")]
 
 ERRCLASS = {1310: "divZero", 1320: "overRange", 1315: "overRange", 1540: "notOneBit", 1110: "argCnt", 1490: "funcArgCnt",
             1860: "unknownFunc", 1870: "funcArg", 1880: "floatOvf", 1890: "argPair", 1300: "bracket", 1010: "symbol", 1020: "symbol",
@@ -274,18 +410,24 @@ def run_asl_cases(bdir, wd, texts, tag, stats):
     out = [None] * len(texts)
 
     def run(idxs, level):
-        if not idxs:
-            return
+        # "internal error" ends the assembly: the cases behind it are run again (a loop, there may be thousands of them)
+        while idxs:
+            idxs = run_once(idxs, level)
+
+    def run_once(idxs, level):
         src = ["\tcpu 68000", "\toutradix 10"]
         owner = {}
+        via_set = set()
         for k, i in enumerate(idxs):
             if "\\" in texts[i] or "'" in texts[i]:
                 # a formula with escape sequences cannot stand inside the outer string of MESSAGE (that string's own
                 # escape processing would come first): evaluate it by SET and print the symbol
                 src.append("c08v%d\tset %s" % (k, texts[i]))
                 owner[len(src)] = k
-                src.append('\tmessage "@%d@ \\{c08v%d}"' % (k, k))
+                # (a formula without value leaves the symbol undefined, which would print as 0: DEFINED tells)
+                src.append('\tmessage "@%d@ \\{defined(c08v%d)}\\{c08v%d}"' % (k, k, k))
                 owner[len(src)] = k
+                via_set.add(k)
             else:
                 src.append('\tmessage "@%d@ \\{%s}"' % (k, texts[i]))
                 owner[len(src)] = k
@@ -300,11 +442,11 @@ def run_asl_cases(bdir, wd, texts, tag, stats):
             stats["crashes"] += 1
             if len(idxs) == 1:
                 out[idxs[0]] = ("crash", rc)
-                return
+                return None
             h = len(idxs) // 2
             run(idxs[:h], level + 1)
             run(idxs[h:], level + 1)
-            return
+            return None
         errs = {}
         for m in ERR_RE.finditer(se + so):
             ln, num = int(m.group(1)), int(m.group(2))
@@ -316,7 +458,12 @@ def run_asl_cases(bdir, wd, texts, tag, stats):
         for line in so.split(b"\n"):
             m = re.match(rb"^@(\d+)@ (.*)$", line)
             if m:
-                vals[int(m.group(1))] = m.group(2).decode("latin-1")
+                k, v = int(m.group(1)), m.group(2).decode("latin-1")
+                if k in via_set:
+                    if not v.startswith("1"):
+                        continue
+                    v = v[1:]
+                vals[k] = v
         fatal_at = None
         for k, i in enumerate(idxs):
             if k in errs:
@@ -329,7 +476,8 @@ def run_asl_cases(bdir, wd, texts, tag, stats):
                 out[i] = ("missing",)
         if fatal_at is not None and fatal_at + 1 < len(idxs):
             stats["fatal_aborts"] += 1
-            run(idxs[fatal_at + 1:], level + 1)
+            return idxs[fatal_at + 1:]
+        return None
 
     run(list(range(len(texts))), 0)
     return out
@@ -512,6 +660,8 @@ def float_close(x, txt):
 
 def agrees(pred, real):
     """pred: driver result string (I../F../S../E..), real: asl outcome"""
+    if pred == "Esilent":     # MODEL only: no value and no message
+        return real[0] == "missing"
     if pred.startswith("E"):
         return real[0] == "err" and real[1] == pred[1:]
     if real[0] != "val":
@@ -546,17 +696,60 @@ def ival(res):
     return int(res[1:]) if res and res.startswith("I") else None
 
 
+def nval(res):
+    """integer value of an operand as an integer operator sees it: an integer, or a string with an integer value"""
+    sv = str_of_res(res)
+    if sv is not None:
+        return int.from_bytes(sv.encode("latin-1"), "big") if has_int_value(sv) else None
+    return ival(res)
+
+
 def signed(v):
     return v - (1 << 64) if v >= (1 << 63) else v
 
 
-def signature(tree, model_of):
+def str_of_res(v):
+    """string value of a driver result `S<hex>`, else None"""
+    if v and v.startswith("S"):
+        return bytes.fromhex(v[1:] if v[1:] != "-" else "").decode("latin-1")
+    return None
+
+
+def has_int_value(sv):
+    return 1 <= len(sv) <= 4
+
+
+def signature(tree, model_of, row=None):
     """input-class signature of a *minimal* failing formula (children all pass)"""
+    wrap = (lambda c: c)
+    if tree[0] == "sq":
+        tree = tree[1]
+        wrap = (lambda c: ("sq", c))
+        inner_model_of = model_of
+        model_of = (lambda c: inner_model_of(wrap(c)))
     k = tree[0]
+    # ---- automatic type conversion
+    if k in ("b", "u"):
+        ops = [model_of(c) for c in tree[2:]]
+        svs = [str_of_res(v) for v in ops]
+        if all(v is not None for v in ops) and any(sv is not None and not has_int_value(sv) for sv in svs):
+            numeric_use = k == "u" or any(sv is None for sv in svs) or tree[1] not in CMP + ["add"]
+            if numeric_use and row is not None and row.get("spec") == "Etype":
+                return "string-operand-not-convertible"
+    if k == "c" and row is not None:
+        args = [model_of(a) for a in tree[2]]
+        numpos = {"substr": [1, 2], "charfromstr": [1]}.get(tree[1], [0] if tree[1] in NUM_FN1 else [])
+        if all(a is not None for a in args):
+            if row.get("model") == "Einternal" and row.get("spec") == "Etype":
+                return "function-type-error-reported-as-internal-error"
+            svs = [str_of_res(args[i]) if i < len(args) else None for i in numpos]
+            if any(sv is not None and has_int_value(sv) for sv in svs) and row.get("spec") != "Etype" \
+                    and row.get("model") in ("Etype", "Einternal"):
+                return "function-string-argument-not-converted"
     if k == "b":
         op = tree[1]
         lv, rv = model_of(tree[2]), model_of(tree[3])
-        li, ri = ival(lv), ival(rv)
+        li, ri = nval(lv), nval(rv)
         if op == "pow" and lv and rv and (lv[0] == "F" or rv[0] == "F"):
             base = f64_of_bits(lv[1:]) if lv[0] == "F" else (signed(li) if li is not None else 0)
             if base < 0:
@@ -606,13 +799,19 @@ def evaluate(bdir, wd, quirks, trees, tag, stats):
         rows.append(dict(tree=t, req=rq, text=text, lex=kv.get("lex"), model=kv.get("model"), toks=kv.get("toks"), spec=kv.get("spec")))
     ok_rows = [r for r in rows if r.get("text") is not None and len(r["text"]) <= 300]
     # cases where the model predicts C undefined behaviour go into files of their own
-    normal = [r for r in ok_rows if r["model"] != "Eub"]
+    # ... and so do cases where it predicts "internal error" (that error ends the assembly: the rest of the file is run again)
+    normal = [r for r in ok_rows if r["model"] not in ("Eub", "Einternal")]
     ub = [r for r in ok_rows if r["model"] == "Eub"]
+    fatal = [r for r in ok_rows if r["model"] == "Einternal"]
     reals = run_asl_cases(bdir, wd, [r["text"] for r in normal], tag, stats)
     for r, o in zip(normal, reals):
         r["real"] = o
     for r, o in zip(ub, run_asl_cases(bdir, wd, [r["text"] for r in ub], tag + "ub", stats)):
         r["real"] = o
+    for c in range(0, len(fatal), 32):      # small files: every case is expected to end its run
+        part = fatal[c:c + 32]
+        for r, o in zip(part, run_asl_cases(bdir, wd, [r["text"] for r in part], tag + "ie", stats)):
+            r["real"] = o
     return [r for r in ok_rows if "real" in r], [r for r in rows if r.get("text") is None]
 
 
@@ -631,8 +830,9 @@ def run(args):
     with common.Workdir("c08") as wd:
         # ---- calibrate the quirk flags on the real binary (model follows the code, spec decides)
         cal = run_asl_cases(bdir, wd, [c[1] for c in CALIB], "cal", stats)
-        quirks = "".join("1" if ((o[0] == "val" and o[1].strip() == c[2]) or (c[2] == "error" and o[0] == "err")) else "0" for c, o in zip(CALIB, cal))
-        res.notes.append("quirk flags calibrated on the real binary (potBase firstbitSkip mirrorInt shrArith singleBitArith) = " + quirks)
+        quirks = "".join("1" if ((o[0] == "val" and o[1].strip() == c[2]) or (c[2] == "error" and o[0] == "err")
+                                 or (c[2] == "internal" and o[0] == "err" and o[1] == "internal")) else "0" for c, o in zip(CALIB, cal))
+        res.notes.append("quirk flags calibrated on the real binary (potBase firstbitSkip mirrorInt shrArith singleBitArith fnStrConv fnErrRaw) = " + quirks)
 
         # ---- generated trees
         n = {"quick": 9000, "thorough": 90000}[args.tier]
@@ -640,7 +840,7 @@ def run(args):
         g = Gen(rng)
         trees = []
         if drv_ok:
-            for line in CORPUS + [p[1] for p in FINDING_PROBES]:
+            for line in CORPUS + CORPUS_MIX + [p[1] for p in FINDING_PROBES]:
                 trees.append(("corpus", line))
             cdir = os.path.join(common.VERIF, "corpus", "C08")
             if os.path.isdir(cdir):
@@ -663,6 +863,25 @@ def run(args):
                 t = g.gen_str(min(d, 4))
                 dist["string_trees"] += 1
             gen_trees.append(t)
+        # ---- mixed operand types (character constants, integers, floats): the complete operator x type x type sweep, then random trees;
+        #      a quarter of them with the strings spelled as character constants
+        mrng = common.rng_for(args.seed, "C08mix")
+        gm = Gen(mrng)
+        dist["mix_sweep"] = 0
+        dist["mix_trees"] = 0
+        dist["mix_character_constants"] = 0
+        for rounds in range({"quick": 2, "thorough": 10}[args.tier]):
+            for key, t in gm.mix_sweep():
+                dist["mix_sweep"] += 1
+                gen_trees.append(("sq", t) if rounds % 2 == 1 else t)
+        for i in range({"quick": 1500, "thorough": 15000}[args.tier]):
+            t = gm.gen_mix(1 + (i % 3))
+            dist["mix_trees"] += 1
+            if mrng.random() < 0.25:
+                dist["mix_character_constants"] += 1
+                t = ("sq", t)
+            gen_trees.append(t)
+        dist["mix_operand_type_pairs"] = dict(sorted(gm.pairs.items()))
         # corpus lines are already serialised: wrap them so that `ser` passes them through
         all_trees = [parse_prefix(l) for _, l in trees] + gen_trees
         dist["corpus"] = len(trees)
@@ -675,6 +894,8 @@ def run(args):
             n_eval += 1
             distinct.add(r["text"])
             t = r["tree"]
+            if t[0] == "sq":
+                t = t[1]
             root = (t[1].split()[0] if t[0] == "raw" else (t[0] + ":" + str(t[1]) if t[0] in "ubc" else t[0]))
             dist["by_root"][root] = dist["by_root"].get(root, 0) + 1
             if t[0] != "raw":
@@ -750,7 +971,7 @@ def run(args):
                 if key in reported:
                     continue
                 reported.add(key)
-                sig = signature(s, model_of) if s[0] != "raw" else None
+                sig = signature(s, model_of, x) if s[0] != "raw" else None
                 if s[0] == "raw":
                     for psig, line in FINDING_PROBES:
                         if line == s[1]:
@@ -759,6 +980,9 @@ def run(args):
                              found_in=r["text"], why="the real assembler's result differs from the documented value")
                 if not sok:
                     spec_fail.append(entry)
+                    if not mok and sig is not None:
+                        # a known finding does not excuse the model: it has to follow what the code does there
+                        corr_fail.append(dict(entry, why="real assembler and Lean model disagree (on an input of a known finding's class)"))
                 elif not mok:
                     entry["why"] = "real assembler and Lean model disagree (the documented value is met)"
                     corr_fail.append(entry)
@@ -785,6 +1009,8 @@ def run(args):
 
     res.coverage = common.proof_coverage(audit, "C08", [
         "translate/tables.py gen_operators/gen_intformats (static dumpers linked with operator.c.o/function.c.o of the current build; intformat.c included)",
+        "automatic type conversion: C08_promotion_table/_unary/_convert_step/_string_meets_float tie TryConvert/BestOpMatch/TempResultToInt/ToFloat to the SPEC's promotion rule (proved); "
+        "the operator x type x type sweep and the mixed trees are the differential part",
         "correspondence: real asl (`message \"\\{expr}\"`, outradix 10) vs Lean tokeniser+token machine on the text rendered by the Lean SPEC render (differential test)",
         "Lean `Float` (opaque to the kernel) for float-valued cases: structural only, compared with 1e-9 relative tolerance"])
     dist.update(stats)
@@ -799,11 +1025,16 @@ def run(args):
     res.coverage.update(
         evaluations=n_eval, distinct_nontrivial=len([t for t in distinct if any(c in t for c in "+-*/#^&|!<>=~(")]),
         rule="expression trees of depth 1..6 over the manual's operator table and integer/float/string functions, operands from boundary pools "
-             "(0, +-1, 2^31, 2^63-1, -2^63, powers of two, multiples of 1/64 as floats); non-trivial = contains an operator or call; distinct by rendered text",
+             "(0, +-1, 2^31, 2^63-1, -2^63, powers of two, multiples of 1/64 as floats); mixed operand types: every dyadic operator x {string, integer, float}^2 "
+             "and every numeric function x argument type (character constants and multi character constants of 1..4 random characters, a few without integer "
+             "value, in double and in single quotes), plus random trees over them; non-trivial = contains an operator or call; distinct by rendered text",
         samples=samples, distribution=dist)
     res.assumptions = ["the text sent to the real assembler is produced by the Lean SPEC `render`; the Lean model tokenises that same text",
                        "error classes are compared through the first error number the assembler reports for the line",
                        "points the manual leaves undefined (negative integer exponents, 0.0 to a negative power, string+integer) are not judged by the SPEC comparator",
+                       "READING: a string (1..4 characters) where a number is expected is its integer value, also as argument of a built-in function and also when the other operand is a float "
+                       "(then promoted to float: 'A'*1.5 = 97.5); a string without integer value there is a type error",
+                       "formulas that contain an apostrophe or a backslash are evaluated through SET and printed with DEFINED(sym) in front, so that a formula without value is not read as 0",
                        "a failing formula is reported through its minimal failing subformulas (no proper subformula fails); a failure above a failing subformula is attributed to that subformula",
                        "float texts printed by asl are trusted to 100 units of the last significant digit when 12+ digits are printed (FloatString shortens to 18 characters), else to 1e-14 relative"]
     return common.conclude(res, proof_problems, spec_fail, corr_fail, n_eval)
